@@ -936,4 +936,32 @@ def r_c14_table(p):
     return {"violates": tbl.get(lo, 0) > tbl.get(hi, 0), "what": "lookup[%s]=%r > lookup[%s]=%r (no concrete pair of vectors found by the search)" % (lo, tbl.get(lo), hi, tbl.get(hi))}
 
 
-HANDLERS = {"c14": r_c14, "c14_table": r_c14_table, "c19": r_c19, "c13": r_c13, "c13_text": r_c13_text, "c13_except": r_c13_except, "c17": r_c17, "c08": r_c08, "c10": r_c10, "c11": r_c11, "c15": r_c15, "c12": r_c12, "c12_raw": r_c12_raw, "c18": r_c18, "parse_step": r_parse_step, "parse_pre": r_parse_pre, "mandatory": r_mandatory, "parse_comm": r_parse_comm, "relational": r_relational, "c09": r_c09, "macrovector4": r_macrovector4, "c07_single": r_c07_single, "c07_pair": r_c07_pair, "c07_foreign": r_c07_foreign}
+def r_c02_table(p):
+    """MAX_COMPOSED / MAX_SEVERITY of the real module differ from the tables derived from the EQ
+    definitions: show a vector whose score differs from the specification"""
+    import random
+
+    import cvss
+    from spec import cvss4_spec, grammar as G
+
+    rng = random.Random(11)
+    g = G.V4
+    for _ in range(300000):
+        parts = ["CVSS:4.0"]
+        for met, vals in g["metrics"]:
+            if met in g["mandatory"] or rng.random() < 0.5:
+                parts.append(met + ":" + rng.choice(vals))
+        v = "/".join(parts)
+        try:
+            got = cvss.CVSS4(v).base_score
+        except Exception as e:  # noqa: BLE001
+            return {"violates": True, "vector": v, "what": "raises %s" % type(e).__name__}
+        m_, _ = G.parse(4, v)
+        full = {k: m_.get(k) for k in G.metric_names(g)}
+        want = float(cvss4_spec.score(full))
+        if got != want:
+            return {"violates": True, "vector": v, "library": got, "specification": want}
+    return {"violates": False, "what": "no score difference found in 300000 random vectors"}
+
+
+HANDLERS = {"c02_table": r_c02_table, "c14": r_c14, "c14_table": r_c14_table, "c19": r_c19, "c13": r_c13, "c13_text": r_c13_text, "c13_except": r_c13_except, "c17": r_c17, "c08": r_c08, "c10": r_c10, "c11": r_c11, "c15": r_c15, "c12": r_c12, "c12_raw": r_c12_raw, "c18": r_c18, "parse_step": r_parse_step, "parse_pre": r_parse_pre, "mandatory": r_mandatory, "parse_comm": r_parse_comm, "relational": r_relational, "c09": r_c09, "macrovector4": r_macrovector4, "c07_single": r_c07_single, "c07_pair": r_c07_pair, "c07_foreign": r_c07_foreign}
